@@ -22,7 +22,8 @@ def run(ctx):
     lemmas(ctx)
     ctx.notes["rule"] = ("band jobs (nchans, fchans, shift, leading integrations, orientation) and array jobs (shape, tile sizes, "
                          "shifts, trim flags) from Split.tla; band jobs on 6 (df, f0) geometries written as real .fil files with "
-                         "pixel identities; distinct = distinct (job, geometry)")
+                         "pixel identities, up to 4 different splits of one unchanged file into one output directory; array jobs in 6 memory layouts "
+                         "(contiguous, views of larger arrays, strided rows, Fortran order, float32); distinct = distinct (job, geometry/layout)")
     ctx.assume("pixel identities 1000*(row+1) + world channel; piece frequencies compared at 1e-3 channel")
     sets = {"MaxN": "7", "MaxH": "4", "MaxW": "4"} if ctx.quick() else {}
     cfg = tlc.cfg_with("Split_MC.cfg", sets, ctx.outdir)
@@ -40,36 +41,60 @@ def run(ctx):
         raise RuntimeError("Split_Gen produced nothing")
     work = os.path.join(ctx.outdir, "split")
     os.makedirs(work, exist_ok=True)
+    # band jobs are grouped by input file (same N, T, orientation): one file, one output directory, several splits of
+    # the unchanged input with different piece sizes / shifts / leading integrations (stale pieces must be overwritten)
     seen = set()
-    nb = 0
-    for n, rec in enumerate(res.emitted):
+    groups, arrays = {}, []
+    for rec in res.emitted:
         job = rec["job"]
-        if job["kind"] == "band":
-            gi = nb % len(ad.GEOMS)
-            nb += 1
-            key = ("band", gi) + tuple(sorted(job.items()))
-        else:
-            key = ("array",) + tuple(sorted(job.items()))
+        key = tuple(sorted(job.items()))
         if key in seen:
             continue
         seen.add(key)
-        ctx.mark(key)
+        if job["kind"] == "band":
+            groups.setdefault((job["N"], job["T"], job["asc"]), []).append(rec)
+        else:
+            arrays.append(rec)
+
+    def report(rec, d, extra):
+        args = dict(rec["job"])
+        args.update({"action": d.field})
+        args.update(extra)
+        ctx.violation(MODULE, "replay:" + d.field, args, {"spec": rec, "expected": d.expected, "observed": d.observed})
+
+    for gn, (gkey, recs) in enumerate(sorted(groups.items())):
+        # the members of a group are spread over the geometries in chunks of up to 4 jobs per written file
+        for c0 in range(0, len(recs), 4):
+            chunk = recs[c0:c0 + 4]
+            gi = (gn + c0 // 4) % len(ad.GEOMS)
+            path = ad.write_band(chunk[0]["job"], ad.GEOMS[gi], work)
+            try:
+                for rec in chunk:
+                    job = rec["job"]
+                    ctx.mark(("band", gi) + tuple(sorted(job.items())))
+                    ctx.traces += 1
+                    ctx.steps += len(rec["pieces"])
+                    if len(ctx.samples) < 2:
+                        ctx.sample({"leg": "R", "expected": rec, "jobs_on_this_file": len(chunk)})
+                    try:
+                        ad.check_band(rec, ad.GEOMS[gi], work, path=path)
+                    except ad.Div as d:
+                        report(rec, d, {"df": ad.GEOMS[gi]["df"], "exact_multiple": (job["N"] - job["F"]) % job["s"] == 0,
+                                        "nth_split_of_file": chunk.index(rec) + 1})
+            finally:
+                if os.path.exists(path):
+                    os.remove(path)
+    for n, rec in enumerate(arrays):
+        job = rec["job"]
+        layout = ad.LAYOUTS[(n + ctx.seed) % len(ad.LAYOUTS)]
+        ctx.mark(("array", layout) + tuple(sorted(job.items())))
         ctx.traces += 1
-        ctx.steps += len(rec.get("pieces", rec.get("tiles", [])))
-        if len(ctx.samples) < 3 and (job["kind"] == "band" or len(ctx.samples) < 1):
-            ctx.sample({"leg": "R", "expected": rec})
+        ctx.steps += len(rec["tiles"])
+        if len(ctx.samples) < 3:
+            ctx.sample({"leg": "R", "expected": rec, "layout": layout})
         try:
-            if job["kind"] == "band":
-                ad.check_band(rec, ad.GEOMS[gi], work)
-            else:
-                ad.check_array(rec)
+            ad.check_array(rec, layout)
         except ad.Div as d:
-            args = dict(job)
-            args.update({"action": d.field})
-            if job["kind"] == "band":
-                args.update({"df": ad.GEOMS[gi]["df"], "exact_multiple": (job["N"] - job["F"]) % job["s"] == 0})
-            else:
-                ragged = any((t["y1"] - t["y0"], t["x1"] - t["x0"]) != (rec["tiles"][0]["y1"] - rec["tiles"][0]["y0"], rec["tiles"][0]["x1"] - rec["tiles"][0]["x0"])
-                             for t in rec["tiles"])
-                args.update({"ragged": ragged})
-            ctx.violation(MODULE, "replay:" + d.field, args, {"spec": rec, "expected": d.expected, "observed": d.observed})
+            t0 = rec["tiles"][0] if rec["tiles"] else None
+            ragged = any((t["y1"] - t["y0"], t["x1"] - t["x0"]) != (t0["y1"] - t0["y0"], t0["x1"] - t0["x0"]) for t in rec["tiles"])
+            report(rec, d, {"ragged": ragged, "layout": layout})
